@@ -1,6 +1,20 @@
 """Typed AST as produced by tools/stirfacts, with helpers used by all rules."""
 
+import re as _re
+
 TRANSPARENT = {"Cast"}
+_ARITH = _re.compile(r"^(const )?(unsigned |signed )?(int|long|long long|short|char|float|double|long double|std::size_t|size_t|unsigned|std::streamsize)( &)?$")
+
+
+_FLIP_CMP = {"==": "==", "!=": "!=", "<": ">", ">": "<", "<=": ">=", ">=": "<="}
+
+
+def _is_literal(n):
+    while n is not None and n.k in ("Cast", "ParenExpr") and n.c:
+        n = n.c[-1]
+    if n is not None and n.k == "UnaryOperator" and n.d.get("op") in ("-", "+") and n.c:
+        return _is_literal(n.c[0])
+    return n is not None and n.k in ("IntegerLiteral", "FloatingLiteral", "CXXBoolLiteralExpr", "CharacterLiteral")
 
 
 class Node:
@@ -14,6 +28,26 @@ class Node:
         for extra in ("init", "condvar"):
             if extra in d and isinstance(d[extra], dict):
                 self.c.insert(0, Node(d[extra], self, fn))
+        # canonical form: the literal of a comparison stands on the right (`0 == x` is `x == 0`, `0 < x` is `x > 0`)
+        if d.get("k") == "BinaryOperator" and d.get("op") in _FLIP_CMP and len(self.c) == 2 and _is_literal(self.c[0]) and not _is_literal(self.c[1]):
+            self.d = d = dict(d, op=_FLIP_CMP[d.get("op")])
+            self.c = [self.c[1], self.c[0]]
+        # canonical form: `x = x op E` (x a variable or member of builtin arithmetic type, op in + - *; also `x = E op x` for + and *)
+        # is the compound assignment `x op= E` - rules see one spelling only
+        if d.get("k") == "BinaryOperator" and d.get("op") == "=" and len(self.c) == 2:
+            lhs = self.c[0]
+            rhs = self.c[1].strip()
+            if lhs.k in ("DeclRefExpr", "MemberExpr") and _ARITH.match(lhs.type or "") and rhs.k == "BinaryOperator" and rhs.op in ("+", "-", "*") and len(rhs.c) == 2:
+                kl = key(lhs)
+                other = None
+                if key(rhs.c[0].strip()) == kl:
+                    other = rhs.c[1]
+                elif rhs.op in ("+", "*") and key(rhs.c[1].strip()) == kl:
+                    other = rhs.c[0]
+                if other is not None and kl not in key(other):
+                    self.d = dict(d, k="CompoundAssignOperator", op=rhs.op + "=")
+                    other.parent = self
+                    self.c = [lhs, other]
 
     # -- attribute sugar
     @property
@@ -237,7 +271,11 @@ def key(n, names=False, subst=None):
     if k == "StringLiteral":
         return '"%s"' % d.get("v", "")
     if k in ("BinaryOperator", "CompoundAssignOperator"):
-        return "(%s %s %s)" % (d.get("op"), key(n.c[0], names, subst), key(n.c[1], names, subst))
+        op = d.get("op")
+        if op in _FLIP_CMP and len(n.c) == 2 and _is_literal(n.c[0]) and not _is_literal(n.c[1]):
+            # canonical form: the literal of a comparison on the right (`0 == x` is `x == 0`, `0 < x` is `x > 0`)
+            return "(%s %s %s)" % (_FLIP_CMP[op], key(n.c[1], names, subst), key(n.c[0], names, subst))
+        return "(%s %s %s)" % (op, key(n.c[0], names, subst), key(n.c[1], names, subst))
     if k == "UnaryOperator":
         return "(%s%s %s)" % (d.get("op"), "post" if d.get("postfix") else "", key(n.c[0], names, subst))
     if k == "ConditionalOperator":
